@@ -8,7 +8,7 @@ Both `is_connected` and the Dijkstra of `routines/isomap.hpp` read `k := g[0].si
 
 Undefined behaviour is explicit: `oob` = an index outside a `std::vector` (a list shorter than `k`, a
 neighbour index ≥ N, `neighbors[0]` of an empty graph); `fuelOut` = the fuel of the modelled loop ran out
-(never happens with the fuel the model passes: `dfs_fuel_suffices`, `findNeighbors_fuel_suffices`).
+(never happens with the fuel the model passes: `dfs_total` / `reachesAll_total`, `findNeighbors_total`).
 -/
 namespace TapkeeVerif.Connected
 
